@@ -167,12 +167,15 @@ fn build(ch: &mut Chooser, fmt: &'static str) -> FCase {
             let encn = ch.choose("xlsx.number-encoding", 3); // untyped, t="n", formula result
             let prefix = ch.flag("xlsx.prefix");
             let omit = ch.flag("xlsx.general-xf-without-numFmtId");
+            // numFmtId is an unsignedInt: custom ids need not fit 16 bits
+            let wide_ids = ch.flag("xlsx.custom-format-ids-above-65535");
+            let big = |id: u16| -> u32 { if wide_ids && id >= 164 { id as u32 + 70_000 } else { id as u32 } };
             // Excel writes small magnitudes as 5.787037037037037E-5 (upper-case E), other writers with a lower-case e
             let text = if v.abs() < 1e-4 && v != 0.0 { let t = format!("{v:E}"); if k % 2 == 0 { t } else { t.to_lowercase() } } else { format!("{v}") };
             let mut c = xlsx::XCell::new(1, 1, xlsx::XVal::Num(text));
             c.style = Some(style);
             if encn == 2 { c.formula = Some(xlsx::XFormula::Plain("1+1".into())); }
-            let book = xlsx::XBook { sheets: vec![xlsx::XSheet::new("S", vec![c])], styles: Some(xlsx::XStyles { num_fmts: fmts.iter().map(|(a, b)| (*a as u32, b.clone())).collect(), cell_xfs: xfs.iter().map(|x| *x as u32).collect(), cell_style_xfs: vec![14, 0], omit_general_numfmt: omit }), date1904: Some(is1904), ..Default::default() };
+            let book = xlsx::XBook { sheets: vec![xlsx::XSheet::new("S", vec![c])], styles: Some(xlsx::XStyles { num_fmts: fmts.iter().map(|(a, b)| (big(*a), b.clone())).collect(), cell_xfs: xfs.iter().map(|x| big(*x)).collect(), cell_style_xfs: vec![14, 0], omit_general_numfmt: omit }), date1904: Some(is1904), ..Default::default() };
             let e = xlsx::XEnc { prefix, explicit_t_n: encn == 1, apply_nf: ch.choose("xlsx.applyNumberFormat(1,absent,0)", 3) as u8, numfmt_code_first: k % 2 == 1, bool_words: v.fract() != 0.0, extras: k % 3 == 1, cell_attrs_reversed: k % 2 == 0 && encn == 0, ..Default::default() };
             FCase { bytes: xlsx::write(&book, &e), expect: expect_num(v), desc: format!("xlsx style={label} v={v} 1904={is1904} enc={encn} prefix={prefix} general-xf-without-numFmtId={omit} xf@{style}"), fmt }
         }
@@ -205,7 +208,11 @@ fn build(ch: &mut Chooser, fmt: &'static str) -> FCase {
             let mut sh = xlsb::BSheet::new("S", vec![xlsb::BItem::Cell { row: 1, col: 1, style, val }]);
             let ph = ch.flag("xlsb.cell-fPhShow-bit-set");
             if ph { sh.cell_flags = 1; }
-            let book = xlsb::BBook { sheets: vec![sh], fmts: fmts.clone(), xfs: xfs.clone(), date1904: is1904, ..Default::default() };
+            // a workbook with thousands of cell formats: the wanted XF is then the last of 5000
+            let many = ch.flag("xlsb.xf-table-of-5000-entries");
+            let (xfs2, style2) = if many && !out_of_range { let mut v: Vec<u16> = xfs.clone(); let want = xfs[style as usize]; v.resize(4999, 0); v.push(want); (v, 4999u32) } else { (xfs.clone(), style) };
+            if many { sh = { let mut s2 = xlsb::BSheet::new("S", vec![xlsb::BItem::Cell { row: 1, col: 1, style: style2, val: match ename { "real" => xlsb::BVal::Real(v), "fmlanum" => xlsb::BVal::FmlaNum(v, vec![0x1E, 1, 0]), _ => xlsb::BVal::Rk(w) } }]); if ph { s2.cell_flags = 1; } s2 }; }
+            let book = xlsb::BBook { sheets: vec![sh], fmts: fmts.clone(), xfs: xfs2, date1904: is1904, ..Default::default() };
             let expect = match (class, ename) { (0, "rk-int") => Data::Int(v as i64), _ => expect_num(v) };
             FCase { bytes: xlsb::write(&book, Method::Deflated), expect, desc: format!("xlsb style={label} v={v} 1904={is1904} enc={ename} fPhShow={ph} xf@{style}"), fmt }
         }
